@@ -103,4 +103,23 @@ example : (singleEnabled (fieldInfos none [none, some [], none])).map (·.1) = .
 example : (singleEnabled (fieldInfos none [some [.ignore], none])).map (·.1) = .ok 1 := by rfl
 example : singleEnabled (fieldInfos none [none, none]) = .error .panicDeliberate := by rfl
 
+/-! ### Struct-level defaults and field-level settings (`MetaInfo::into_full`) -/
+
+/-- What a field's own attribute says wins over what the struct-level attribute (or the derive's
+default) says; in particular `not(forward)` on the field switches a struct-level `forward` off. -/
+theorem field_setting_overrides_inherited (m : Meta) (d : Full) (b : Bool) (h : m.forward = some b) :
+    (m.intoFull d).forward = b := by
+  simp [Meta.intoFull, h]
+
+/-- A field that says nothing inherits. -/
+theorem unset_inherits (m : Meta) (d : Full) (h : m.forward = none) :
+    (m.intoFull d).forward = d.forward := by
+  simp [Meta.intoFull, h]
+
+/-- `#[deref(forward)] struct S { #[deref(not(forward))] a: A, #[deref(ignore)] b: B }`: field `a` is
+selected and dereferenced directly, not through its own `Deref`. -/
+theorem not_forward_field_is_direct :
+    derefBody (fieldInfos (some [.forward]) [some [.notForward], some [.ignore]]) = .ok (.direct 0) := by
+  rfl
+
 end Dm.Props.C14
